@@ -67,6 +67,10 @@ def check(case: Dict[str, Any]) -> Outcome:
     from chuk_mcp.transports.sse.parameters import SSEParameters
     from chuk_mcp.transports.sse.sse_client import sse_client
 
+    if "fuzz" in case:
+        from ..fuzz.job import check_fuzz_case
+
+        return check_fuzz_case(case)
     out = Outcome()
     est = case["est"]
     T = case.get("timeout", 2.0)
@@ -389,13 +393,22 @@ def job_matrix(col: Collector, seed: int, tier: str, shard: int, nshards: int) -
         col.exhaustive_parts.append("establishment kinds (incl. delays around the timeout) x 8 request modes x {str,int} id x 3 exit paths")
 
 
-JOBS = {"hyp": job_hyp, "matrix": job_matrix}
+def job_atheris(col: Collector, seed: int, tier: str, seconds: int, corpus: str) -> None:
+    from ..fuzz.job import run_fuzz_job
+
+    run_fuzz_job(col, "sse_stream", seconds, seed, corpus)
+
+
+JOBS = {"atheris": job_atheris, "hyp": job_hyp, "matrix": job_matrix}
 
 
 def jobs(tier: str):
     if tier == "quick":
         return [("matrix", {"shard": s, "nshards": 8}) for s in range(8)] + [("hyp", {"shard": s, "n": 120}) for s in range(8)]
-    return [("matrix", {"shard": s, "nshards": 6}) for s in range(6)] + [("hyp", {"shard": s, "n": 3000}) for s in range(10)]
+    return (
+        [("matrix", {"shard": s, "nshards": 6}) for s in range(6)] + [("hyp", {"shard": s, "n": 3000}) for s in range(10)]
+        + [("atheris", {"seconds": 150, "corpus": "seeded"}), ("atheris", {"seconds": 150, "corpus": "empty"})]
+    )
 
 
 def shrink(signature: str, seed: int):
